@@ -102,9 +102,18 @@ structure Fn where
   retVars : List Nat       -- variables returned
   retAlias : List Nat      -- parameters the result may share memory with (declared)
   isPublic : Bool
+  cert : Cert              -- may-alias certificate proposed by the translator (untrusted: checked by `safeWith`)
 deriving Repr
 
+/-- the generated obligation: the proposed certificate is closed under the program, every in-place write reaches
+    declared parameters only, the returned variables alias declared parameters only, and a public entry point
+    declares no write. (`safeWith` is sound for *any* certificate: `ownership_sound`.) -/
 def Fn.ok (f : Fn) : Bool :=
+  safeWith f.prog f.cert f.writes && returnsOk f.cert f.retVars f.retAlias &&
+  (!f.isPublic || f.writes.isEmpty)
+
+/-- the same decision with the certificate recomputed in Lean by `analyse` (not used on the generated table: slower) -/
+def Fn.okRecomputed (f : Fn) : Bool :=
   safe f.prog f.writes && returnsOk (analyse f.prog) f.retVars f.retAlias &&
   (!f.isPublic || f.writes.isEmpty)
 
